@@ -221,6 +221,12 @@ func (cb *CellBuffer) Resize(w, h int) {
 // If either the foreground or background are ColorNone, then the respective
 // color is unchanged.
 func (cb *CellBuffer) Fill(r rune, style Style) {
+	// zero width (control, combining, format or invalid) runes must keep
+	// their zero width, so that GetContent presents them as blanks
+	width := runewidth.RuneWidth(r)
+	if width > 1 {
+		width = 1
+	}
 	for i := range cb.cells {
 		c := &cb.cells[i]
 		c.currMain = r
@@ -233,7 +239,7 @@ func (cb *CellBuffer) Fill(r rune, style Style) {
 			cs.bg = c.currStyle.bg
 		}
 		c.currStyle = cs
-		c.width = 1
+		c.width = width
 	}
 }
 
